@@ -1064,11 +1064,6 @@ func (wl *writerLoop) runSym(v mergeVal) *mergeOutcome {
 				cur = r.varValue(root, s)
 			}
 		}
-		if wl.delta == nil && len(path) == 0 && val.kind == 'x' && len(val.xs) > 0 && isUint32(o.Type()) && o.Parent() != nil && s.Get("in") != "" {
-			if vv, ok := o.(*types.Var); ok && !vv.IsField() && !r.st.IsFrameParam(o) && r.st.Cur() == f {
-				wl.delta = o
-			}
-		}
 		return r.set(s, o, r.update(cur, path, val))
 	}
 	st.OnNode = func(n ast.Node, s kit.S) []kit.S {
